@@ -37,7 +37,9 @@ DatesFull == {D(i[1], i[2], i[3], i[4], i[5], i[6], us) : i \in Instants, us \in
 SetDate(p, v) == [op |-> "SetDate", p |-> p, kind |-> "datetime", v |-> v]
 BadDate(p, k) == [op |-> "SetDate", p |-> p, kind |-> k, v |-> D(2020, 2, 29, 1, 2, 3, FALSE)]
 SetRev(k, n)  == [op |-> "SetRev", kind |-> k, n |-> n]
-RevsFull == {SetRev("int", n) : n \in {1, 2, 255, 2147483647, 0, Neg1, NegBig}}
+\* 2147483001..3 are CODES (TLC integers are 32-bit): the driver assigns and recognises 2^31, 2^53 + 1 (the first integer a double
+\* cannot hold) and 10^20 for them - "revision accepts positive integers", whatever their size
+RevsFull == {SetRev("int", n) : n \in {1, 2, 255, 2147483647, 0, Neg1, NegBig, 2147483001, 2147483002, 2147483003}}
             \cup {SetRev("float", 1), SetRev("float", 2), SetRev("str", 2), SetRev("none", 0), SetRev("bool", 1), SetRev("bool", 0)}
 
 Lx(g, b, f, z) == [g |-> g, y |-> b[1], m |-> b[2], d |-> b[3], H |-> b[4], M |-> b[5], S |-> IF g = "hm" THEN 0 ELSE b[6],
